@@ -25,4 +25,4 @@ per-byte scan step with its paired position updates, the exact writer sets of si
 guard/order structure of the roll-and-refill block. The pinned suite never executes a roll or a refill."""
 NOTE = """Trusted: rustc MIR construction, the fact extractor, std slice/Vec semantics. Requires the std feature (stream code). Anchors
 are def-paths and field names of StreamChunkIter/Buffer. Not decided: the data invariant that the retained tail contains the match start."""
-TECHNIQUE = "static analysis: affine normal forms of index arithmetic, who-may-write inventories, dominance / graph-cut queries over rustc MIR"
+TECHNIQUE = "static analysis: affine normal forms of index arithmetic, finite evaluation of the buffer constructor, who-may-write inventories, dominance / graph-cut queries over rustc MIR"
